@@ -8,8 +8,33 @@ package disruption
 //@   prop C18
 //@   modifies *
 //@   site (*Cluster).DeepCopyNodes requires [thisCluster] $0 == cluster
-//@   site (*Provisioner).NewScheduler requires [copiesOnly] forall j int {$3[j]} :: (0 <= j && j < len($3)) ==> state.elemOf($3[j], @(*Cluster).DeepCopyNodes)
+//@   site lo.Filter #1 requires [filtersCopies] forall j int {$0[j]} :: (0 <= j && j < len($0)) ==> state.elemOf($0[j], @(*Cluster).DeepCopyNodes)
+//@   site (*Provisioner).NewScheduler requires [theFilteredList] loc($3) == loc(@lo.Filter) && len($3) == len(@lo.Filter)
+//@   site (*Provisioner).NewScheduler requires [listUnchanged] forall j int {$3[j]} :: (0 <= j && j < len($3)) ==> $3[j] == atcall(@lo.Filter, $3[j])
 //@   site (*Provisioner).NewScheduler requires [freshNodes] forall j int {$3[j]} :: (0 <= j && j < len($3) && $3[j] != nil) ==> fresh($3[j])
 //@   loop 1 invariant [none] true
 //@   loop 2 invariant [none] true
 //@   loop 3 invariant [none] true
+
+// ---- where API writes and cluster-state marks may occur in the disruption tree ----
+// Everything that evaluates a decision (helpers.go: SimulateScheduling, GetCandidates..; the methods' ComputeCommands,
+// consolidation.go, validation.go) contains no write call at all; the writers are the orchestration queue and the
+// controller's clean-up of stale taints.
+//@ inventory disruptionNoClientCreate [C18]: (client.Client).Create arg 0 Client in sigs.k8s.io/karpenter/pkg/controllers/disruption only (*Queue).none
+//@ inventory disruptionNoClientUpdate [C18]: (client.Client).Update arg 0 Client in sigs.k8s.io/karpenter/pkg/controllers/disruption only (*Queue).none
+//@ inventory disruptionNoClientPatch [C18]: (client.Client).Patch arg 0 Client in sigs.k8s.io/karpenter/pkg/controllers/disruption only (*Queue).none
+//@ inventory disruptionNoClientDeleteAllOf [C18]: (client.Client).DeleteAllOf arg 0 Client in sigs.k8s.io/karpenter/pkg/controllers/disruption only (*Queue).none
+//@ inventory disruptionClientDeleteOnlyInQueue [C18]: (client.Client).Delete arg 0 Client in sigs.k8s.io/karpenter/pkg/controllers/disruption only (*Queue).waitOrTerminate
+//@ inventory disruptionStatusPatchOnlyInQueue [C18]: (client.SubResourceWriter).Patch arg 0 SubResourceWriter in sigs.k8s.io/karpenter/pkg/controllers/disruption only (*Queue).markDisrupted
+//@ inventory disruptionNoStatusUpdate [C18]: (client.SubResourceWriter).Update arg 0 SubResourceWriter in sigs.k8s.io/karpenter/pkg/controllers/disruption only (*Queue).none
+//@ inventory disruptionNoStatusCreate [C18]: (client.SubResourceWriter).Create arg 0 SubResourceWriter in sigs.k8s.io/karpenter/pkg/controllers/disruption only (*Queue).none
+//@ inventory disruptionNoProviderCreate [C18]: (cloudprovider.CloudProvider).Create arg 0 CloudProvider in sigs.k8s.io/karpenter/pkg/controllers/disruption only (*Queue).none
+//@ inventory disruptionNoProviderDelete [C18]: (cloudprovider.CloudProvider).Delete arg 0 CloudProvider in sigs.k8s.io/karpenter/pkg/controllers/disruption only (*Queue).none
+//@ inventory disruptionTaintWriters [C18]: state.RequireNoScheduleTaint arg 1 Client in sigs.k8s.io/karpenter/pkg/controllers/disruption only (*Controller).Reconcile, (*Queue).Reconcile, (*Queue).markDisrupted
+//@ inventory disruptionConditionWriters [C18]: state.ClearNodeClaimsCondition arg 1 Client in sigs.k8s.io/karpenter/pkg/controllers/disruption only (*Controller).Reconcile, (*Queue).Reconcile
+//@ inventory disruptionNodeClaimCreation [C18]: (*Provisioner).CreateNodeClaims arg 0 Provisioner in sigs.k8s.io/karpenter/pkg/controllers/disruption only (*Queue).createReplacementNodeClaims
+//@ inventory disruptionNoDirectProvisionerCreate [C18]: (*Provisioner).Create arg 0 Provisioner in sigs.k8s.io/karpenter/pkg/controllers/disruption only (*Queue).none
+//@ inventory disruptionDeletionMarks [C18]: (*Cluster).MarkForDeletion arg 0 Cluster in sigs.k8s.io/karpenter/pkg/controllers/disruption only (*Queue).StartCommand
+//@ inventory disruptionDeletionUnmarks [C18]: (*Cluster).UnmarkForDeletion arg 0 Cluster in sigs.k8s.io/karpenter/pkg/controllers/disruption only (*Queue).CompleteCommand
+//@ inventory disruptionNoNomination [C18]: (*Cluster).NominateNodeForPod arg 0 Cluster in sigs.k8s.io/karpenter/pkg/controllers/disruption only (*Queue).none
+//@ inventory disruptionResultsRecordOnlyAtStart [C18]: (Results).Record arg 0 Results in sigs.k8s.io/karpenter/pkg/controllers/disruption only (*Queue).StartCommand
